@@ -63,7 +63,7 @@ LABELS = {"one": {"a", "b", "c"}, "two": {"a", "b"}, "cond": {"x", "y", "z", "w"
 def nontrivial_value(v):
     if isinstance(v, str):
         return not (v.isascii() and v.replace("_", "a").isalnum())
-    if isinstance(v, bool) or v is None or isinstance(v, float):
+    if isinstance(v, bool) or v is None or isinstance(v, float) or not isinstance(v, int):
         return True
     return not (0 <= v < 2**31)
 
@@ -99,7 +99,13 @@ def run(ctx):
                 ctx.violation("construct-failed", dict(text=text, error=c[1:]), mechanism="C15/construct-failed")
                 continue
             evs[(salt, shape)] = (text, c[1])
-    values = list(FIXED_VALUES)
+    from pyabv.gen import golden
+    from pyabv.gen.inputs import exotic_splitter_values
+
+    values = list(FIXED_VALUES) + exotic_splitter_values()
+    gold = golden.load()
+    for k in (0, 1, 2**32 - 1, 2**32 - 2, 2**31):
+        values += gold.get(k, [])[:2]  # ids whose position is the first / last grid point: u must stay inside [0, 1)
     # one sample of every Unicode general category
     cats = {}
     for cp in range(0, 0x110000, 7 if ctx.quick() else 1):
